@@ -188,6 +188,22 @@ pub fn c10() -> i32 {
             })
             .collect();
         scns.extend(stragglers);
+        // long after the drop (the dead peer's endpoint has been shut down for good after 5 s) a
+        // survivor's application calls disconnect_player for the dropped player again: refused,
+        // and both survivors keep running in agreement
+        let repeats: Vec<Scenario> = scenarios("c10-split-late-repeat", "1+1+1", &[2, 8], &[0], &[false, true], 4..6, 0, (100, 300), 1)
+            .into_iter()
+            .map(|mut x| {
+                let dead = x.peers.len() - 1;
+                let h = x.peers[dead].locals[0];
+                let death = x.script.iter().find(|i| i.action == Action::Die).map(|i| i.round).unwrap_or(5);
+                x.script.push(ScriptItem { round: death + 340, node: 0, action: Action::Disconnect { handle: h } });
+                x.probe = 340 + 60;
+                x.name = format!("{} survivor 0 repeats disconnect_player({h}) 340 rounds after the death", x.name);
+                x
+            })
+            .collect();
+        scns.extend(repeats);
         // no stall before the drop is registered: window larger than the timeout, asymmetric
         // slow link between the survivors (one still owes the other corrections around the
         // cut-off when Disconnected is raised)
